@@ -41,14 +41,33 @@ type WL struct {
 func gen(r *rand.Rand) WL {
 	w := WL{Container: []string{"csr", "adj"}[r.IntN(2)]}
 	n := 1 + r.IntN(8)
+	dagish := r.IntN(2) == 0
+	if dagish {
+		n = 5 + r.IntN(6) // deeper component DAGs with cross edges: eviction inside one DFS becomes likely
+	}
 	pool := []uint64{0, 1, 2, 3, 4, 5, 6, 7, 8, 9, 10, 11, 65535, 65536, 1 << 32, 1<<32 + 1, 1 << 40, 1<<63 + 5}
-	r.Shuffle(len(pool), func(i, j int) { pool[i], pool[j] = pool[j], pool[i] })
+	if r.IntN(2) == 0 {
+		// insertion order matters to the DFS; shuffle only half of the time
+		r.Shuffle(len(pool), func(i, j int) { pool[i], pool[j] = pool[j], pool[i] })
+	}
 	w.Nodes = append(w.Nodes, pool[:n]...)
 	ne := r.IntN(2*n + 2)
 	for i := 0; i < ne; i++ {
-		w.Edges = append(w.Edges, [2]uint64{w.Nodes[r.IntN(n)], w.Nodes[r.IntN(n)]})
+		a, b := r.IntN(n), r.IntN(n)
+		if dagish && r.IntN(8) != 0 {
+			if a == b {
+				continue
+			}
+			if a > b {
+				a, b = b, a // mostly forward edges: many small components
+			}
+		}
+		w.Edges = append(w.Edges, [2]uint64{w.Nodes[a], w.Nodes[b]})
 	}
 	w.Cap = []int{-1, 0, 1, 1, 2, 2, 3, 4, n, n + 2, 100}[r.IntN(11)]
+	if dagish {
+		w.Cap = []int{1, 1, 2, 2, 3, 4}[r.IntN(6)]
+	}
 	nq := 2 + r.IntN(9)
 	pick := func() uint64 {
 		if r.IntN(12) == 0 {
@@ -58,6 +77,9 @@ func gen(r *rand.Rand) WL {
 	}
 	for i := 0; i < nq; i++ {
 		q := Q{K: []string{"canreach", "reach", "reach", "slice", "or", "xor"}[r.IntN(6)], A: pick(), Dir: []string{"out", "in"}[r.IntN(2)]}
+		if dagish && r.IntN(3) > 0 {
+			q.K, q.Dir = "reach", "out"
+		}
 		if q.K == "canreach" {
 			q.B = pick()
 		}
